@@ -395,7 +395,11 @@ def itemstr(parents=None, item=None, value=None):
 SECTION_EXPAND_PATTERN = re.compile(
     r'''
         (?:
-          [^,"']+
+          [^,"'{]+
+          |
+          \{[\s\d]*,[\s\d]*\}  # regex quantifier {m,n}: not a separator
+          |
+          \{
           |
           "[^"]*"
           |
